@@ -359,6 +359,9 @@ pub struct RunRecord {
     pub env_perturbed: u64,
     #[serde(default)]
     pub cpu_reads: u64,
+    /// calls not made because their reference evaluation does not complete within the budget
+    #[serde(default)]
+    pub skipped_incomplete_reference: u64,
     /// compared outcomes of calls whose haystack is at least 4096 bytes long
     #[serde(default)]
     pub large_input_outcomes: u64,
